@@ -8,7 +8,9 @@ from .. import core, hub, proto as P
 from ..hub import T1, T2, T3, ALL, HubConfig
 
 # P and Q are two instances of one module id (both allow multiple instances)
-IDS = {"A": (11, 0), "B": (12, 0), "C": (13, 0), "G": (60, 1), "H": (61, 1), "M": (90, 0), "P": (70, 0), "Q": (70, 0)}
+IDS = {"A": (11, 0), "B": (12, 0), "C": (13, 0), "G": (60, 1), "H": (61, 1), "M": (90, 0), "P": (70, 0), "Q": (70, 0),
+       # D and E ask for a dynamic id: their trailing v1 CONNECT still carries source id 0
+       "D": (0, 0), "E": (0, 0)}
 SIBLINGS = "PQ"
 
 
@@ -105,6 +107,8 @@ def configs(tier: str, props) -> List[Any]:
                     types=(T1,), presub=True, flip=True),
             # two instances of one module id (allow_multiple): both are subscribers in their own right, addressed messages reach both
             builder(tier=tier, subscribers="APQ", loggers="", pre="APQ", ctl="PQ", pairs="none", nonwritable=1, props=props, types=(T1, ALL)),
+            # dynamically numbered modules (the library's V2-then-V1 handshake with source id 0): addressed by the id they were told
+            builder(tier=tier, subscribers="ADE", loggers="", pre="ADE", ctl="DE", pairs="none", nonwritable=1, props=props, types=(T1, ALL)),
         ]
     return [
         builder(tier=tier, subscribers="AB", loggers="G", pre="ABG", ctl="ABG", pairs="all", nonwritable=3, props=props,
@@ -120,6 +124,7 @@ def configs(tier: str, props) -> List[Any]:
         builder(tier=tier, tc=True, flip=True, subscribers="AB", loggers="G", churn="ABG", ctl="ABG", pairs="none",
                 nonwritable=1, props=props, types=(T1, ALL)),
         builder(tier=tier, subscribers="APQ", loggers="G", pre="APQG", ctl="APQ", churn="PQ", pairs="publish", nonwritable=2, props=props, types=(T1, ALL)),
+        builder(tier=tier, tc=True, subscribers="ADE", loggers="G", pre="DAEG", ctl="ADE", pairs="publish", nonwritable=2, props=props, types=(T1, ALL)),
     ]
 
 
